@@ -3,7 +3,9 @@ import CnlModel.Sqrt
 import CnlSpec.Sqrt
 /-!
 `C19` driver table: `cnl::sqrt` on built-in integers, elastic_integer, wide_integer and
-scaled_integer over any of these.
+scaled_integer over any of these, and on overflow_integer / rounding_integer over any of these
+(result additionally `TRAP+ TRAP- THROW+ THROW-`: a report by the overflow tag, never correct on an
+input the property covers).
 
     C19 sqrt <type> <x> => <result type>:<r> | UB | UNREACHABLE | TIMEOUT
     C19 sweep32 <i32|u32> <lo> <hi> <count> <fails> => ok       (thorough in-harness exhaustive sweep, summary;
@@ -43,6 +45,8 @@ def showHex (v : Int) : String := if v < 0 then "-0x" ++ hexOfNat v.natAbs else 
 def usesHex : Ty → Bool
   | .wd D (.int N) => decide (D > (if N.signed then 127 else 128))
   | .sc r _ _ => usesHex r
+  | .ov r _ => usesHex r
+  | .rd r _ => usesHex r
   | _ => false
 
 def showNum19 (x : Num) : String :=
@@ -54,6 +58,8 @@ def inProperty : Ty → Int → Bool
   | .el D (.int _), x => decide (0 ≤ x ∧ x < 2 ^ D)
   | .wd D (.int _), x => decide (0 ≤ x ∧ x < 2 ^ D)
   | .sc r _ _, x => inProperty r x
+  | .ov r _, x => inProperty r x
+  | .rd r _, x => inProperty r x
   | _, _ => false
 
 /-- the property's demand on input `(t, x)` and the implementation's result `(rt, r)` -/
@@ -63,6 +69,9 @@ def c19Oracle : Ty → Int → Ty → Int → Bool
   | .wd _ (.int _), x, .wd _ (.int _), r => decide (IsFloorSqrt x r)
   | .sc rep e radix, x, .sc rep' e' radix', r =>
     decide (radix = radix' ∧ IsScaledFloorSqrt x e radix r e') && c19Oracle rep x rep' r
+  -- overflow_integer / rounding_integer: same kind of number (same tag / mode) holding the floor of the root
+  | .ov rep tag, x, .ov rep' tag', r => decide (tag = tag') && c19Oracle rep x rep' r
+  | .rd rep mode, x, .rd rep' mode', r => decide (mode = mode') && c19Oracle rep x rep' r
   | _, _, _, _ => false
 
 def parseNumRes (s : String) : Option Num :=
@@ -75,6 +84,8 @@ def branchOf : Ty → String
   | .el _ _ => "el"
   | .wd _ _ => "wd"
   | .sc r _ _ => "sc/" ++ branchOf r
+  | .ov r tag => "ov-" ++ tag.toString ++ "/" ++ branchOf r
+  | .rd r _ => "rd/" ++ branchOf r
   | _ => "other"
 
 end Cnl.Drv.C19
